@@ -86,6 +86,23 @@ def bindable_reads(p):
     return out
 
 
+def _kinds_in(node):
+    """names of the LoopIR node classes in the subtree (callee bodies included)"""
+    out, todo = [], [node]
+    while todo:
+        n = todo.pop()
+        out.append(type(n).__name__)
+        for f in getattr(type(n), "__attrs_attrs__", ()):
+            v = getattr(n, f.name)
+            if f.name == "f" and hasattr(v, "body"):
+                todo += list(v.body)
+            elif isinstance(v, list):
+                todo += [x for x in v if hasattr(type(x), "__attrs_attrs__")]
+            elif hasattr(type(v), "__attrs_attrs__") and f.name not in ("type", "srcinfo"):
+                todo.append(v)
+    return " ".join(out)
+
+
 def config_attempts(p, env, with_calls=True):
     """configuration operations on p at every position"""
     import stream
@@ -100,6 +117,10 @@ def config_attempts(p, env, with_calls=True):
     stmts = list(stream.walk_stmts(p))
     for path, c, _ in stmts:
         if isinstance(c, C.AssignConfigCursor):
+            A("delete_config", path)
+        elif isinstance(c, (C.ForCursor, C.IfCursor, C.CallCursor)) and "WriteConfig" in repr(type(c._impl._node)) + _kinds_in(c._impl._node):
+            # delete_config takes ANY statement that only modifies configuration state: a loop / branch / call
+            # around a configuration write (seeded change C10_1 lives in the loop dataflow of such a statement)
             A("delete_config", path)
         for (cn, fn), kind in sorted(kinds.items()):
             for rhs in rhs_choices(kind, bools, reals):
